@@ -910,6 +910,9 @@ class TestSuite(tsdb.Database):
             _add_row(self, tablename, data, buffer_size)
 
         tsdb.write_database(self, self.path, gzip=gzip)
+        # everything is on disk now, so a later commit must not write
+        # the rows held in memory again
+        self.reload()
 
 
 def _add_row(ts: TestSuite,
